@@ -170,6 +170,71 @@ func (e *Env) RMaps() {
 	}
 	e.Run.Analysed("map registrations", n)
 	e.Run.Floor("R-MAPS", "allocation/registration facts", n, 450)
+	e.mapsOnlyGrow()
+}
+
+// mapsOnlyGrow: the node/object/scope maps are never shrunk while converting, except for entries
+// of temporaries the same function allocated: `delete(M, k)` on one of the maps is accepted only
+// when k is a local that holds a fresh allocation of that function. Removing any other entry
+// un-registers a converted node: duplicate detection (restoreNode's look-up) and the inverse
+// correspondence depend on it.
+func (e *Env) mapsOnlyGrow() {
+	pkg := e.Prog.Pkg(load.PkgDecorator)
+	info := pkg.TypesInfo
+	c := e.Sib.Ctx[load.PkgDecorator]
+	isNodeMap := func(x ast.Expr) bool {
+		se, ok := x.(*ast.SelectorExpr)
+		if !ok {
+			return false
+		}
+		t := info.TypeOf(se.X)
+		if t == nil {
+			return false
+		}
+		if p, ok := t.(*types.Pointer); ok {
+			t = p.Elem()
+		}
+		nt, ok := t.(*types.Named)
+		return ok && nt.Obj().Pkg() == pkg.Types && (nt.Obj().Name() == "AstMap" || nt.Obj().Name() == "DstMap")
+	}
+	n := 0
+	for _, fd := range load.AllFuncDecls(pkg) {
+		if fd.Body == nil {
+			continue
+		}
+		ast.Inspect(fd.Body, func(nd ast.Node) bool {
+			call, ok := nd.(*ast.CallExpr)
+			if !ok || len(call.Args) != 2 {
+				return true
+			}
+			id, ok := call.Fun.(*ast.Ident)
+			if !ok || id.Name != "delete" {
+				return true
+			}
+			if _, isB := info.Uses[id].(*types.Builtin); !isB || !isNodeMap(call.Args[0]) {
+				return true
+			}
+			n++
+			fresh := false
+			if kid, ok := call.Args[1].(*ast.Ident); ok {
+				if def := singleDefIn(info, fd.Body.List, info.Uses[kid]); def != nil {
+					switch d := def.(type) {
+					case *ast.UnaryExpr:
+						_, isLit := d.X.(*ast.CompositeLit)
+						fresh = d.Op == token.AND && isLit
+					case *ast.CallExpr:
+						if fn := c.Callee(d); fn != nil && fn.Pkg() != nil && fn.Pkg().Path() == load.PkgDst && strings.HasPrefix(fn.Name(), "New") {
+							fresh = true
+						}
+					}
+				}
+			}
+			e.Run.Check("R-MAPS", fmt.Sprintf("%s: delete from %s removes only a temporary of the function", load.FuncName(fd), c.ExprStr(call.Args[0])), e.Prog.Pos(call.Pos()), fresh,
+				"the key `"+c.ExprStr(call.Args[1])+"` is not a local holding a fresh allocation: the entry of a converted node may be removed, after which the node is no longer known as converted (a second use of it is not rejected; the maps stop being inverse)")
+			return true
+		})
+	}
+	e.Run.Analysed("deletes on node maps", n)
 }
 
 // ---------------------------------------------------------------------------------------------
